@@ -2,6 +2,7 @@
 import io
 
 from .. import metas, smf
+from .. import envprobe
 from ..common import chunks, exc_name, generic_replay, pool_map
 
 RULE = ('charsets latin1, utf-8, cp1252, shift_jis, utf-16, utf-32, ascii, koi8-r (and, for the round trip and the file bytes, 14 more: not ASCII-compatible, stateful or 7-bit: utf-16-le/be, utf-32-le/be, utf-7, hz, iso2022_jp, cp037, cp500, euc_jp, gb2312, big5, cp437, mac_roman) x texts from each codec\'s repertoire (and '
@@ -218,12 +219,15 @@ def run(ck):
     ck.sample({'charset': cases[5][0], 'texts': list(cases[5][1]), 'fault': cases[5][2]})
     ck.sample({'charset': cases[-3][0], 'texts': list(cases[-3][1]), 'fault': cases[-3][2]})
     ck.compare('charset.load', reqs, impl, ck.driver.run(reqs))
+    envprobe.check(ck, ['meta', 'file', 'load'])
     return ck.finish(RULE, assumptions=['the codecs themselves are CPython\'s; the model implements latin1, ascii and strict UTF-8 '
                                         '(round trip proved); the other codecs are exercised through the oracle only',
                                         'concurrent loads in several threads are outside the property'])
 
 
 def oracle(case):
+    if 'environment' in case:
+        return envprobe.oracle(case)
     return impl_case((case['charset'], tuple(case['texts']), tuple(case['fault']) if case['fault'] else None))[1]
 
 
